@@ -126,6 +126,14 @@ func Start(cfg Config) (*Proxy, error) {
 	return nil, lastErr
 }
 
+// yamlString renders a scalar for the configuration file (quoted unless empty: "{tag}x" would be a YAML mapping).
+func yamlString(s string) string {
+	if s == "" {
+		return ""
+	}
+	return fmt.Sprintf("%q", s)
+}
+
 func startOnce(bin string, cfg Config) (*Proxy, error) {
 	port, err := pickPort()
 	if err != nil {
@@ -166,7 +174,7 @@ redis:
   server_retry_timeout: %d
   disable_slave: %v
   server_connections: %d
-`, port, filepath.Join(dir, "log"), strings.Join(cfg.Servers, ","), cfg.Password, cfg.Preconnect, cfg.MaxLen, cfg.TimeoutMs, retry, cfg.DisableSlave, sc)
+`, port, filepath.Join(dir, "log"), strings.Join(cfg.Servers, ","), yamlString(cfg.Password), cfg.Preconnect, cfg.MaxLen, cfg.TimeoutMs, retry, cfg.DisableSlave, sc)
 	if err := os.WriteFile(filepath.Join(conf, "rc.yaml"), []byte(yaml), 0o644); err != nil {
 		return nil, err
 	}
